@@ -102,7 +102,43 @@ class BuildError(Exception):
 
 
 def build_engine(engines, name, variant):
-    """Returns the path of the (fresh) harness executable."""
+    """Returns the path of the (fresh) harness executable.
+
+    Several checks may run at the same time (different properties sharing one engine, or the same engine against
+    different source trees), so the build of one variant is serialised by a file lock and the executable that is
+    handed out is content addressed: nobody relinks a file that somebody else is about to execute."""
+    import fcntl
+    odir = os.path.join(BUILD, variant)
+    os.makedirs(odir, exist_ok=True)
+    with open(os.path.join(odir, '.lock'), 'w') as lk:
+        fcntl.flock(lk, fcntl.LOCK_EX)
+        prune_objects(odir)
+        return build_engine_locked(engines, name, variant)
+
+
+def prune_objects(odir):
+    """Objects compiled from scratch trees that no longer exist (seeded-change runs) are dropped, at most hourly."""
+    stamp = os.path.join(odir, '.pruned')
+    try:
+        if time.time() - os.path.getmtime(stamp) < 3600:
+            return
+    except OSError:
+        pass
+    open(stamp, 'w').close()
+    for f in os.listdir(odir):
+        if not f.endswith('.d'):
+            continue
+        deps = parse_deps(os.path.join(odir, f)) or []
+        srcs = [d for d in deps if d.endswith('.cpp')]
+        if srcs and not os.path.exists(srcs[0]):
+            for ext in ('.d', '.o', '.key'):
+                try:
+                    os.unlink(os.path.join(odir, f[:-2] + ext))
+                except OSError:
+                    pass
+
+
+def build_engine_locked(engines, name, variant):
     e = engines[name]
     cc, _, lflags, spy_ok = VARIANTS[variant]
     srcs = [os.path.join(VERIF, 'harness', name + '.cpp'), os.path.join(VERIF, 'rt', 'rt.cpp')]
@@ -114,16 +150,27 @@ def build_engine(engines, name, variant):
     with cf.ThreadPoolExecutor(max_workers=NCPU) as ex:
         res = list(ex.map(lambda s: compile_obj(variant, s, e.get('cflags', []) if s == srcs[0] else ()), srcs))
     objs = [r[0] for r in res]
-    exe = os.path.join(BUILD, variant, name)
     lkey = sha(variant, *[file_bytes(o) for o in objs])
-    kfile = exe + '.lkey'
-    if not os.path.exists(exe) or file_bytes(kfile).decode(errors='replace') != lkey:
-        cmd = [cc] + objs + ['-o', exe] + lflags
+    exe = os.path.join(BUILD, variant, name + '.' + lkey[:16])
+    if os.path.exists(exe):
+        os.utime(exe)
+    else:
+        tmp = exe + '.tmp%d' % os.getpid()
+        cmd = [cc] + objs + ['-o', tmp] + lflags
         r = subprocess.run(cmd, capture_output=True, text=True)
         if r.returncode != 0:
             raise BuildError('link failed: %s\n%s' % (' '.join(cmd), r.stderr[-4000:]))
-        with open(kfile, 'w') as f:
-            f.write(lkey)
+        os.rename(tmp, exe)
+    # executables of other source states: keep them while a concurrent check may still be about to start them
+    now = time.time()
+    for f in os.listdir(os.path.join(BUILD, variant)):
+        path = os.path.join(BUILD, variant, f)
+        if f.startswith(name + '.') and path != exe and not f.endswith('.cpp'):
+            try:
+                if now - os.path.getmtime(path) > 3 * 3600:
+                    os.unlink(path)
+            except OSError:
+                pass
     return exe
 
 
